@@ -31,12 +31,12 @@ VERIFY = ('self._verify_individual', 'self._verify_iterable', 'cls._verify_indiv
 def check(ctx):
     ctx.consult('containers/containers.py')
     base = ctx.repo.cls('containers:_TRSTractList')
-    _entry_paths(ctx, base)
-    _verifiers(ctx)
-    _from_multiple(ctx)
-    _group(ctx)
-    _selection(ctx)
-    _mro_calls(ctx)
+    ctx.attempt(_entry_paths, base)
+    ctx.attempt(_verifiers)
+    ctx.attempt(_from_multiple)
+    ctx.attempt(_group)
+    ctx.attempt(_selection)
+    ctx.attempt(_mro_calls)
 
 
 def _entry_paths(ctx, base):
